@@ -1,5 +1,6 @@
 """C18 - push and fetch through storage mappings move exactly the reachable objects."""
 
+import logging
 import os
 
 from hypothesis import strategies as st
@@ -55,6 +56,10 @@ ASSUMPTIONS = [
 
 SIG = "md5"
 ENUM_CAP = 10
+
+# injected upload failures and doubly-missing objects are logged (with tracebacks) by the code under test;
+# the verdict never depends on log output
+logging.getLogger("dvc_data").setLevel(logging.CRITICAL)
 
 
 # ============================================================================================
